@@ -78,7 +78,7 @@ func ProcessCmap(cmap tables.Cmap, os2FontPage tables.FontPage) (Cmap, UnicodeVa
 			if err != nil {
 				return nil, nil, err
 			}
-			candidates = append(candidates, cmap)
+			candidates = append(candidates, sanitizeCmap4(cmap))
 			candidateIds = append(candidateIds, id)
 		case tables.CmapSubtable6:
 			candidates = append(candidates, newCmap6(table))
@@ -273,6 +273,20 @@ func newCmap4(cm tables.CmapSubtable4) (cmap4, error) {
 		out[i] = entry
 	}
 	return out, nil
+}
+
+// sanitizeCmap4 drops the segments which are empty or not after the previous one :
+// the binary search of Lookup requires increasing, disjoint segments
+// (sanitizeCmapGroups does the same for the formats 12 and 13).
+func sanitizeCmap4(cm cmap4) cmap4 {
+	out := cm[:0]
+	for _, e := range cm {
+		if e.end < e.start || (len(out) != 0 && e.start <= out[len(out)-1].end) {
+			continue
+		}
+		out = append(out, e)
+	}
+	return out
 }
 
 type cmap4Iter struct {
